@@ -13,6 +13,7 @@ import (
 	"fmt"
 	"math/bits"
 	"os"
+	"runtime"
 	"runtime/debug"
 	"sort"
 	"strconv"
@@ -21,6 +22,7 @@ import (
 	"sync/atomic"
 	"time"
 
+	"github.com/XiaoMi/Gaea/mysql"
 	"github.com/XiaoMi/Gaea/proxy/plan"
 
 	"verif/engine/enum"
@@ -223,6 +225,107 @@ func runHistory(w *worker, c Case) outcome {
 	return o
 }
 
+// releasedFamily: the statement under test after earlier statements whose OK results were
+// RELEASED the way the session releases them (ClientConn.writeOKResult: Result.Free), more of
+// them than the statement has shards, so that recycled result objects reach the merger of
+// the statement under test. The pool is a sync.Pool: this family runs alone, on one P and
+// with the collector off, so that what was released is what is drawn next.
+func releasedFamily(r *ev.Run, layouts []rig.Layout) {
+	oldProcs := runtime.GOMAXPROCS(1)
+	oldGC := debug.SetGCPercent(-1)
+	defer func() {
+		debug.SetGCPercent(oldGC)
+		runtime.GOMAXPROCS(oldProcs)
+	}()
+	w := &worker{rigs: map[string]*rig.Rig{}}
+	fill := []string{"insert_one", "insert_multi", "insert_set", "replace"}
+	for _, l := range layouts {
+		for _, fname := range fill {
+			var fp rig.Prefix
+			for _, p := range rig.Prefixes {
+				if p.Name == fname {
+					fp = p
+				}
+			}
+			for ti := range hTargets {
+				rg := w.rig(l).Fresh()
+				st, err := rg.NewStore(contentRows([]int{0, 1, 2, 3, 4, 5, 6, 7}))
+				if err != nil {
+					ev.Fatalf("%v", err)
+				}
+				fsql := rig.Subst(fp.SQL, l)
+				fstmt, _ := rg.Parse(fsql)
+				// m sessions execute the earlier statement and hold its result ...
+				var held []*mysql.Result
+				ok := true
+				for i := 0; i < 2*l.Tables()+2; i++ {
+					p, err := rg.Build(fsql)
+					if err != nil {
+						ok = false
+						break
+					}
+					res, err, _ := rg.NewExec(st).Run(p)
+					if err != nil || res == nil {
+						ok = false
+						break
+					}
+					held = append(held, res)
+					if _, err := sqlref.Exec(st.Union, fstmt); err != nil {
+						ok = false
+						break
+					}
+				}
+				// ... and release it after the answer was written
+				for _, res := range held {
+					res.Free()
+				}
+				ref, sh, _ := rg.TRows(st)
+				if !ok || !rig.SameRows(ref, sh) {
+					r.Add("released_prefix_diverged", 1)
+					continue
+				}
+				sql := rig.Subst(hTargets[ti].text, l)
+				stmt, _ := rg.Parse(sql)
+				p, err := rg.Build(sql)
+				if err != nil {
+					r.Add("released_rejected", 1)
+					continue
+				}
+				ex := rg.NewExec(st)
+				res, err, _ := ex.Run(p)
+				refRes, rerr := sqlref.Exec(st.Union, stmt)
+				r.Add("evaluations", 1)
+				r.Add("released_cases", 1)
+				if err != nil || rerr != nil {
+					r.Add("released_rejected", 1)
+					continue
+				}
+				var aff, insertID uint64
+				var status uint16
+				if res != nil {
+					aff, insertID, status = res.AffectedRows, res.InsertID, res.Status
+				}
+				c := Case{Layout: l.Name(), KeyStmt: -1, HTarget: ti, Released: fname, Content: []int{0, 1, 2, 3, 4, 5, 6, 7}, SQL: fsql + " (x" + strconv.Itoa(len(held)) + ", results released); " + sql, Shards: rig.CallsText(ex.Calls)}
+				kind, detail := "", ""
+				switch {
+				case aff != refRes.AffectedRows:
+					kind, detail = "affected_rows", fmt.Sprintf("reported %d affected rows, single database reports %d", aff, refRes.AffectedRows)
+				case insertID != 0:
+					kind, detail = "insert_id", fmt.Sprintf("reported insert id %d for an UPDATE/DELETE", insertID)
+				case res != nil && status != mysql.ServerStatusAutocommit:
+					kind, detail = "status", fmt.Sprintf("reported status %#x, the shards reported %#x", status, mysql.ServerStatusAutocommit)
+				}
+				if kind == "" {
+					r.Add("released_cases_held", 1)
+					continue
+				}
+				feat := map[string]string{"layout_rule": l.Rule, "mismatch": kind, "stmt": "released:" + hTargets[ti].name, "prefix_1": fname, "prefix_2": "-"}
+				r.Violation(ev.Witness{Summary: fmt.Sprintf("[%s] %s: %s", c.Layout, c.SQL, detail), Features: feat, Case: c})
+			}
+		}
+	}
+}
+
 func subst(s, qual string, l rig.Layout) string {
 	s = strings.ReplaceAll(s, "{id}", qual+"id")
 	if strings.Contains(s, "{K") {
@@ -235,16 +338,17 @@ func subst(s, qual string, l rig.Layout) string {
 
 // Case is one replayable case: statement template, WHERE tree {form, a, b}, content.
 type Case struct {
-	Layout  string   `json:"layout"`
-	Tmpl    int      `json:"tmpl"`
-	Tree    [3]int   `json:"tree"`
-	Content []int    `json:"content"`
-	KeyStmt int      `json:"key_stmt"`       // >= 0: index into keyAssign instead of Tmpl/Tree
-	Hist    []int    `json:"hist,omitempty"` // history case: rig.Prefixes executed first on the same router
-	HTarget int      `json:"h_target"`       // history case: index into hTargets
-	SQL     string   `json:"sql,omitempty"`
-	Rows    []string `json:"rows,omitempty"`
-	Shards  []string `json:"shard_sqls,omitempty"`
+	Layout   string   `json:"layout"`
+	Tmpl     int      `json:"tmpl"`
+	Tree     [3]int   `json:"tree"`
+	Content  []int    `json:"content"`
+	KeyStmt  int      `json:"key_stmt"`           // >= 0: index into keyAssign instead of Tmpl/Tree
+	Hist     []int    `json:"hist,omitempty"`     // history case: rig.Prefixes executed first on the same router
+	HTarget  int      `json:"h_target"`           // history case: index into hTargets
+	Released string   `json:"released,omitempty"` // released-results family: the earlier statement (a rig.Prefixes name)
+	SQL      string   `json:"sql,omitempty"`
+	Rows     []string `json:"rows,omitempty"`
+	Shards   []string `json:"shard_sqls,omitempty"`
 }
 
 func render(c Case, l rig.Layout) string {
@@ -553,7 +657,43 @@ var (
 
 // report confirms a violation five times and reports it when it is locally minimal (no
 // row can be dropped and the tree cannot be cut down to one of its atoms).
-var violSet sync.Map
+// boundedSet is a set of 64-bit hashes of case keys with a hard size limit: what does not
+// fit is simply not remembered (the caller then re-runs the sub-case instead of looking it
+// up), so the memory of a run does not grow with the number of violating cases.
+type boundedSet struct {
+	mu  sync.Mutex
+	m   map[uint64]struct{}
+	max int
+}
+
+func hashKey(k string) uint64 {
+	h := uint64(14695981039346656037)
+	for i := 0; i < len(k); i++ {
+		h ^= uint64(k[i])
+		h *= 1099511628211
+	}
+	return h
+}
+
+func (s *boundedSet) Store(k string, _ bool) {
+	s.mu.Lock()
+	if s.m == nil {
+		s.m = map[uint64]struct{}{}
+	}
+	if len(s.m) < s.max {
+		s.m[hashKey(k)] = struct{}{}
+	}
+	s.mu.Unlock()
+}
+
+func (s *boundedSet) Load(k string) (bool, bool) {
+	s.mu.Lock()
+	_, ok := s.m[hashKey(k)]
+	s.mu.Unlock()
+	return ok, ok
+}
+
+var violSet = &boundedSet{max: 2000000}
 
 func caseKey(c Case) string {
 	return fmt.Sprint(c.Layout, c.Tmpl, c.Tree, c.Content, c.KeyStmt, c.Hist, c.HTarget)
@@ -643,12 +783,18 @@ func selfTest() {
 
 func main() {
 	gx.Quiet()
-	debug.SetGCPercent(400)
+	debug.SetGCPercent(300)
+	debug.SetMemoryLimit(5 << 30)
 	r := ev.Start("C05", "exploration")
 	selfTest()
 
 	rc := Case{KeyStmt: -1}
 	if r.ReplayCase(&rc) {
+		if rc.Released != "" {
+			// the released-results family is replayed as a whole for the layout
+			releasedFamily(r, []rig.Layout{parseLayout(rc.Layout)})
+			r.Finish()
+		}
 		w := &worker{rigs: map[string]*rig.Rig{}}
 		o := run(w, rc)
 		fmt.Printf("replay: [%s] %s\n  content %v\n  status=%s %s %s %s\n", rc.Layout, o.sql, describe(parseLayout(rc.Layout), rc.Content), o.status, o.kind, o.detail, o.errText)
@@ -798,6 +944,8 @@ func main() {
 			templates[l.Name()] = append(templates[l.Name()], st)
 		}
 	}
+
+	releasedFamily(r, hLayouts)
 
 	pool := sync.Pool{New: func() interface{} { return &worker{rigs: map[string]*rig.Rig{}} }}
 	// one bit per (template, tree, content) triple that changed rows on >= 2 tables
